@@ -378,6 +378,26 @@ PROPS["C17"] = {
 }
 
 
+PROPS["C06"]["check_mods"].append("C06core")
+PROPS["C06"]["drivers"].append({"name": "c06core", "n_quick": 48, "n_thorough": 2000, "timeout": 3000})
+PROPS["C06"]["rule"] += (" At the level of the I/O thread (c06core: real handle_steady_event -> Inner::read_from_stream -> "
+    "FrameBuffer through the CoreProbe): 12-70 deliveries with bodies of 0 / 1 / 700 / 3000 / 4088 / 5000 bytes for one "
+    "consumer arrive in ONE readiness episode (tens to hundreds of KiB before the socket would block), or the same "
+    "frames in two episodes, or with the server's Connection.Close right behind them; then the consumer's queue is "
+    "read out.")
+PROPS["C06"]["explanation"] += (" c06core: every observation equals the Core model's (which processes every frame of an "
+    "episode) and, independently: an episode that ends with would-block reports no transport failure, and when "
+    "nothing failed the consumer received exactly as many deliveries as were sent (and the messages that were sent, in order).")
+PROPS["C06"]["trusted_base"] = PROPS["C06"]["trusted_base"] + CORE_TRUSTED
+PROPS["C10"]["check_mods"].append("CoreMix")
+PROPS["C10"]["drivers"].append({"name": "c10core", "n_quick": 160, "n_thorough": 8000, "timeout": 3000})
+PROPS["C10"]["rule"] += (" At the level of the I/O thread (c10core, CoreProbe): channel_max from {65535, 65534, 4, 2}; "
+    "explicit ids from {0, 1, 2, 255, 256, 32767, 32768, 65534, 65535, max-1, max, max+1} and automatic ones are "
+    "opened through the real allocation request / event / reply path, used like any other id (requests into the "
+    "mailbox, the channel's wake-up token, replies from the server), closed by the server and opened again.")
+PROPS["C10"]["explanation"] += (" c10core: every observation equals the Core model's; nothing panics (an id is also a "
+    "poll token: the dispatch must accept every id up to 65535).")
+PROPS["C10"]["trusted_base"] = PROPS["C10"]["trusted_base"] + CORE_TRUSTED
 for _p in ("C11", "C09"):
     PROPS[_p]["check_mods"].append("C11l2")
     PROPS[_p]["drivers"].append({"name": "c11l2", "n_quick": 30, "n_thorough": 600, "timeout": 3000})
